@@ -241,6 +241,19 @@ def files(ctx: Ctx):
                     extra = [alias_spelling(m) for m in items if alias_spelling(m) != m and ctx.rng.random() < 0.2]
                     if extra:
                         t['action'][i] = ', '.join(items + extra)
+    # length limits: rows that are too short (deletions) or too long go to the excluded file and still count
+    for i, d in enumerate(designs):
+        if i % 5 == 1:
+            if d['mode'] == 'sge':
+                t0 = d['targetons'][0]
+                L = t0['ref_end'] - t0['ref_start'] + 1
+            else:
+                t0 = d['targetons'][0]
+                L = t0['ref_end'] - t0['ref_start'] + 1
+            L += len(d['opts'].get('adaptor5') or '') + len(d['opts'].get('adaptor3') or '')
+            d['opts']['min_length'] = L - ctx.rng.choice([0, 0, 1, 2])       # most deletion rows are too short, none too long
+            if ctx.rng.random() < 0.3:
+                d['opts']['max_length'] = L
     results = pool_map(design_case, designs)
     exprs, meta = [], []
     for d, r in results:
